@@ -97,6 +97,16 @@ class Ctx:
             self.samples.append(s)
 
     # ------------------------------------------------------------------
+    def new_violations(self):
+        """violations that are not listed as known findings (the same split finish() makes)"""
+        known = set()
+        try:
+            kf = json.load(open(KNOWN, encoding="utf-8"))
+            known = {f["key"] for f in kf.get("findings", []) if f.get("property") == self.pid and f.get("status") == "known"}
+        except FileNotFoundError:
+            pass
+        return [v for v in self.viol if v["key"] not in known]
+
     def finish(self, explanation, checker_cmd=None):
         known = {}
         try:
